@@ -82,6 +82,7 @@ thread_local! {
     static LOG: RefCell<Vec<Value>> = const { RefCell::new(Vec::new()) };
     static PLAN: RefCell<Option<Plan>> = const { RefCell::new(None) };
     static NEW_CALLS: RefCell<u64> = const { RefCell::new(0) };
+    static NEW_TYPES: RefCell<Vec<&'static str>> = const { RefCell::new(Vec::new()) };
 }
 
 pub fn set_plan(p: Option<Plan>) {
@@ -112,6 +113,7 @@ pub fn take_log() -> Vec<Value> {
 pub fn clear_log() {
     LOG.with(|l| l.borrow_mut().clear());
     NEW_CALLS.with(|c| *c.borrow_mut() = 0);
+    NEW_TYPES.with(|c| c.borrow_mut().clear());
 }
 fn push(ev: Value) {
     LOG.with(|l| l.borrow_mut().push(ev));
@@ -119,6 +121,14 @@ fn push(ev: Value) {
 /// Called by every generated contract's `new()`: counts constructor invocations.
 pub fn note_new() {
     NEW_CALLS.with(|c| *c.borrow_mut() += 1);
+}
+/// `new()` of a generic contract: also records which instantiation of the contract type was built.
+pub fn note_new_of(type_name: &'static str) {
+    note_new();
+    NEW_TYPES.with(|c| c.borrow_mut().push(type_name));
+}
+pub fn new_types() -> Vec<&'static str> {
+    NEW_TYPES.with(|c| c.borrow().clone())
 }
 pub fn new_calls() -> u64 {
     NEW_CALLS.with(|c| *c.borrow())
@@ -278,7 +288,7 @@ pub fn j<T: serde::Serialize>(v: &T) -> String {
 
 pub mod prelude {
     pub use crate::errs::{DescribeErr, ErrParam, IfaceErr, LookupErr, MonErr, PlanErr};
-    pub use crate::{echo_mut, echo_query, j, note_new, MyMsg, MyQuery, Pt, ReplyObs, Shape};
+    pub use crate::{echo_mut, echo_query, j, note_new, note_new_of, MyMsg, MyQuery, Pt, ReplyObs, Shape};
 }
 
 /// Bound for the type parameters of generated generic contracts and the associated types of
@@ -322,6 +332,7 @@ pub mod named {
     named_types!(T1, T2, ExecT, QueryT, ParamT, RespT, FieldT, ItemT, ParamA, RespB, ItemC, KeyD, ErrT, Error, Key, Value, Config, State);
     named_types!(ExecC, QueryC, Api, Ctx, Deps, Env, Info, Storage, Response, Reply, Event, Coin, Addr, Binary, Empty, Contract, Remote, Executor,
                  Querier, Interface, Token, Owner, Admin, Payload, Result2, Messages, Sudo, Migrate, Instantiate, CustomMsg, CustomQuery, ContractT, MtApp);
+    named_types!(MsgT, SudoT, DataT, KeyT, ValueT, SubMsgResult, SubMsgResponse);
     pub(crate) use named_types;
 }
 
